@@ -399,7 +399,38 @@ def _record_fields(prog, f, ctor):
     return None
 
 
+class _FoldLiteralLookups(ast.NodeTransformer):
+    """`{'a': X, 'b': Y}['a']` -> X: a dict display with constant, distinct keys subscripted by a constant, when building the
+    other entries has no effect (names, attributes, constants, or calls of names on such arguments - constructors of records)"""
+
+    @staticmethod
+    def _inert(e, depth=0):
+        if isinstance(e, (ast.Name, ast.Constant)):
+            return True
+        if isinstance(e, ast.Attribute):
+            return _FoldLiteralLookups._inert(e.value, depth)
+        if isinstance(e, (ast.Tuple, ast.List)):
+            return all(_FoldLiteralLookups._inert(x, depth) for x in e.elts)
+        if isinstance(e, ast.Call) and depth < 2 and isinstance(e.func, ast.Name) and e.func.id[:1] == '_' and e.func.id[1:2].isupper():
+            return all(_FoldLiteralLookups._inert(a, depth + 1) for a in e.args) and all(k.arg and _FoldLiteralLookups._inert(k.value, depth + 1) for k in e.keywords)
+        return False
+
+    def visit_Subscript(self, n):
+        self.generic_visit(n)
+        if isinstance(n.ctx, ast.Load) and isinstance(n.value, ast.Dict) and isinstance(n.slice, ast.Constant) and n.value.keys \
+                and all(isinstance(k, ast.Constant) for k in n.value.keys):
+            keys = [k.value for k in n.value.keys]
+            if len(set(map(repr, keys))) == len(keys) and n.slice.value in keys and all(self._inert(v) for v in n.value.values):
+                return ast.copy_location(n.value.values[keys.index(n.slice.value)], n)
+        return n
+
+
 def scalar_replace_records(prog, f, node):
+    node = _FoldLiteralLookups().visit(node)
+    return _scalar_replace_records(prog, f, node)
+
+
+def _scalar_replace_records(prog, f, node):
     """a local bound once to a plain record (`x = K(a, b)`, see _record_fields) and used afterwards only as `x.field`,
     `x.property`, `*x` / `a, b = x` (tuples) is replaced by one local per field: pipelines that pass small named tuples or outcome
     objects between their stages read like the code that passes the values themselves."""
@@ -522,7 +553,7 @@ def scalar_replace_records(prog, f, node):
         blk[i0:i0 + 1] = binds if binds else [ast.copy_location(ast.Pass(), st)]
         changed = True
         ast.fix_missing_locations(node)
-        return scalar_replace_records(prog, f, node)      # parents changed: start again for the next record
+        return _scalar_replace_records(prog, f, node)      # parents changed: start again for the next record
     return node
 
 
